@@ -29,7 +29,7 @@ IsEv(a) == l <= Len(Trace) /\ Line.a = a /\ l' = l + 1
 ToPoint(r) == [id |-> r.id, ts |-> r.ts, k |-> r.k, sat |-> ToSet(r.sat),
                vs |-> ToSet(r.vs), n |-> r.n]
 
-NoSnap == [t \in Tables |-> [mem |-> EmptyBag, disk |-> EmptyBag]]
+NoSnap == [t \in Tables |-> [mem |-> EmptyBag, disk |-> EmptyBag, clock |-> 0]]
 
 \* what a query shows of a bag of cells: for the _points field only the count
 IsPts(f) == Src[f] = "_point"
@@ -85,13 +85,24 @@ TClose  == IsEv("Close") /\ Close /\ Same
 TQueryStart ==
   /\ IsEv("QueryStart")
   /\ up /\ Line.t \in opened
-  /\ qs' = [qs EXCEPT ![Line.t] = [mem |-> View(Line.t), disk |-> DiskView(Line.t)]]
+  /\ qs' = [qs EXCEPT ![Line.t] = [mem |-> View(Line.t), disk |-> DiskView(Line.t), clock |-> clock]]
   /\ UNCHANGED <<vars, scn, fails>>
 
-\* the rows the query returned are exactly the cells of that snapshot
+\* the rows the query returned are exactly the cells of that snapshot; a query
+\* naming fields (Line.fields # <<>>) returns only those, and is planned with
+\* the default time window (now - retention, now], both ends rounded up to the
+\* table's resolution (query.go:62-63)
+InWindow(t, P, now) == LET until == PeriodOf(t, now)
+                           asOf  == PeriodOf(t, until - Ret[t])
+                       IN P > asOf /\ P <= until
+Shown(B, t, fs, win, now) ==
+  [e \in {x \in DOMAIN B : /\ (fs = <<>> \/ x[3] \in ToSet(fs))
+                            /\ (~win \/ InWindow(t, x[2], now))} |-> B[e]]
 TQueryResult ==
   /\ IsEv("QueryResult")
-  /\ ObsBag(Line.rows) = Observable(IF Line.mem THEN qs[Line.t].mem ELSE qs[Line.t].disk)
+  /\ LET q == qs[Line.t]
+     IN ObsBag(Line.rows) =
+          Observable(Shown(IF Line.mem THEN q.mem ELSE q.disk, Line.t, Line.fields, Line.win, q.clock))
   /\ UNCHANGED <<vars, qs, scn, fails>>
 
 Normal ==
@@ -121,15 +132,17 @@ BadOf(inv) ==
          UNION {{<<t, e[4]>> : e \in DiffCells(View(t), Expected(t, Len(wal)))} : t \in CaughtUpTables}
     [] inv = "MemLockStep" ->
          UNION {{<<t, e[4]>> : e \in DiffCells(View(t), AppliedPart(t))} : t \in opened}
-    [] inv = "DiskLockStep" ->
-         UNION {UNION {{<<t, e[4]>> : e \in DiffCells(OnFields(disk[t][i].cells, flds[t]),
-                                                       ExpectedS(t, disk[t][i].off))}
-                       : i \in DOMAIN disk[t]} : t \in Tables}
+    [] inv = "DiskLockStep" ->      \* files are immutable: the newest one suffices
+         UNION {IF Newest(t) = 0 THEN {}
+                ELSE {<<t, e[4]>> : e \in DiffCells(OnFields(disk[t][Newest(t)].cells, flds[t]),
+                                                    ExpectedS(t, disk[t][Newest(t)].off))}
+                : t \in Tables}
     [] inv = "AtMostOnce" -> IF AtMostOnce THEN {} ELSE {<<"*", 0>>}
     [] inv = "OffsetsOrdered" -> IF OffsetsOrdered THEN {} ELSE {<<"*", 0>>}
-\* recorded when a predicate becomes false (was true before the step)
-Broken == {i \in CheckInvs : BadOf(i) = {} /\ BadOf(i)' # {}}
-NewViol == {[scn |-> scn', inv |-> i, at |-> l, bad |-> BadOf(i)'] : i \in Broken}
+\* recorded in every state in which a predicate is false (the report keeps
+\* the first line per scenario and predicate)
+NewViol == IF UNCHANGED vars THEN {}      \* queries and observations change nothing
+           ELSE {[scn |-> scn', inv |-> i, at |-> l, bad |-> BadOf(i)'] : i \in {j \in CheckInvs : BadOf(j)' # {}}}
 
 TraceNext == (Normal /\ viol' = viol \cup NewViol) \/ (TSkip /\ UNCHANGED viol)
 TraceSpec == TraceInit /\ [][TraceNext]_tvars
